@@ -168,11 +168,21 @@ func (e *env) opTransferX(hostile bool) *op {
 func (e *env) opLock(hostile bool) *op {
 	from := e.pickFunded()
 	to := e.freshLock()
+	// now and then the funds of a live lock account are locked again (a lock inside a lock), half of the time
+	// with the same expiry as the outer one (seeded change C09-5: values read before the tick's own transfers)
+	var outer *lockInfo
+	if l, ok := e.pickLock(); ok && e.locks[l] != nil && e.locks[l].remaining.Sign() > 0 && e.b.Rng.IntN(6) == 0 {
+		from, outer = l, e.locks[l]
+		e.b.Hit("lock-inside-a-lock")
+	}
 	bal := e.modelBalance(from)
 	amt := e.pickAmount(bal, hostile)
 	until := e.epoch + runner.Pick(e.b.Rng, []int64{-1, 0, 1, 1, 2, 3})
 	if until <= 0 {
 		until = 1 // until = 0 is the contract's "not a lock account" sentinel; not in the judged scope
+	}
+	if outer != nil && e.b.Rng.IntN(2) == 0 {
+		until = outer.until
 	}
 	c := e.pickClass(8)
 	s, cn := e.classSigners(c)
